@@ -833,3 +833,205 @@ Section UniqueDec.
     - cbn [subtrees]. apply Hsub; assumption.
   Qed.
 End UniqueDec.
+
+(* ------------------------------------------------------------------ what the encoder writes is a tree
+   the Go record can tell apart *)
+Section EncTreeOk.
+  Variables J JK : Type.
+  Variable jenc : base -> lit -> res J.
+  Variable kenc : base -> lit -> res JK.
+  Variable reg : registry.
+  Variable env : senv.
+  Hypothesis reg_names : names_nonempty reg = true.
+  Hypothesis reg_unique : NoDup (map fst reg).
+  Hypothesis field_names_unique : forall n ds, struct_fields env n = Some ds -> NoDup (map fst ds).
+
+  Lemma rm_then_m : forall t k, rm_lookup reg t = Some k -> m_lookup reg k = Some t.
+  Proof.
+    revert reg_unique. generalize reg as r. induction r as [|[k' t'] r IH]; intros Hn t k H; simpl in *; [discriminate H|].
+    inversion Hn as [|? ? Hni Hn']; subst.
+    destruct (ty_eqb t t') eqn:E.
+    - inversion H; subst k'. apply ty_eqb_eq in E. subst t'. now rewrite String.eqb_refl.
+    - destruct (String.eqb k k') eqn:Ek.
+      + apply String.eqb_eq in Ek. subst k'. exfalso. apply Hni.
+        clear - H. induction r as [|[k2 t2] r IH]; simpl in *; [discriminate H|].
+        destruct (ty_eqb t t2); [inversion H; now left | right; auto].
+      + now apply IH.
+  Qed.
+  Lemma rm_nonempty : forall t k, rm_lookup reg t = Some k -> nonempty k = true.
+  Proof. intros t k H. unfold nonempty. now rewrite (rm_lookup_nonempty reg reg_names t k H). Qed.
+  Lemma NoDup_names_nodup : forall l, NoDup l -> names_nodup l = true.
+  Proof.
+    induction l as [|a r IH]; intro H; [reflexivity|]. inversion H as [|? ? Hni Hn]; subst. simpl.
+    rewrite (IH Hn), andb_true_r. apply negb_true_iff. destruct (existsb (String.eqb a) r) eqn:E; [|reflexivity].
+    apply existsb_exists in E. destruct E as [b [Hb Eb]]. apply String.eqb_eq in Eb. subst b. contradiction.
+  Qed.
+
+  Notation tok := (tree_ok J JK reg).
+  Definition otok (o : option (istruct J JK)) : bool := match o with Some c => tok c | None => true end.
+
+  Lemma tok_set_ct : forall ct i, ct_ok ct = true -> tok i = true -> tok (set_cti J JK ct i) = true.
+  Proof.
+    intros ct [] Hct H; simpl in *; try exact H.
+    - apply andb_true_iff in H. destruct H as [H1 H2]. apply andb_true_iff in H1. destruct H1 as [H1 _].
+      now rewrite H1, Hct, H2.
+    - apply andb_true_iff in H. destruct H as [_ H2]. now rewrite Hct, H2.
+  Qed.
+
+  Lemma mapM_otok : forall (A : Type) (f : A -> res (option (istruct J JK))) l r,
+    Forall (fun a => forall o, f a = Ok o -> otok o = true) l -> mapM f l = Ok r -> forallb otok r = true.
+  Proof.
+    intros A f l; induction l as [|a l IH]; intros r HF Hm; simpl in Hm.
+    - inversion Hm. reflexivity.
+    - inversion HF as [|? ? Ha HF']; subst.
+      destruct (f a) as [o|e|] eqn:E; simpl in Hm; try discriminate Hm.
+      destruct (mapM f l) as [r'|e|] eqn:E2; simpl in Hm; try discriminate Hm.
+      inversion Hm. simpl. now rewrite (Ha o eq_refl), (IH r' HF' eq_refl).
+  Qed.
+
+  Lemma elem_key_nonempty : forall t kk, elem_key reg t = Ok kk -> nonempty (snd kk) = true.
+  Proof.
+    intros t kk H. unfold elem_key, lookup_name in H.
+    destruct (rm_lookup reg (snd (strip_ptr t))) as [k|] eqn:E; simpl in H; [|discriminate H].
+    inversion H. simpl. eapply rm_nonempty; eauto.
+  Qed.
+
+  Theorem enc_tree_ok : forall v pn o,
+    wt env v = true -> enc_at J JK jenc kenc fixed reg pn v = Ok o -> otok o = true.
+  Proof.
+    induction v using val_ind'; intros pn o Hwt He; simpl in He.
+    - (* VBase *) unfold lookup_name in He. destruct (rm_lookup reg (TBase b)) as [k|] eqn:E; simpl in He; [|discriminate He].
+      destruct (jenc b l); simpl in He; try discriminate He. inversion He. simpl. now rewrite (rm_nonempty _ _ E).
+    - unfold lookup_name in He. destruct (rm_lookup reg (TNamed n b)) as [k|] eqn:E; simpl in He; [|discriminate He].
+      destruct (jenc b l); simpl in He; try discriminate He. inversion He. simpl. now rewrite (rm_nonempty _ _ E).
+    - (* VStruct *)
+      unfold lookup_name in He. destruct (rm_lookup reg (TStruct n)) as [k|] eqn:E; simpl in He; [|discriminate He].
+      match type of He with (do fields <- ?M; _) = _ => destruct M as [fields|e|] eqn:Hm end; simpl in He; try discriminate He.
+      inversion He; subst o; clear He. simpl. rewrite (rm_nonempty _ _ E), (rm_then_m _ _ E). simpl.
+      rewrite wt_struct in Hwt. destruct (struct_fields env n) as [ds|] eqn:Hds; [|discriminate Hwt].
+      assert (Hfst : map fst fields = map fst fs /\ forallb (fun fo => otok (snd fo)) fields = true).
+      { clear - Hm H Hwt. revert ds fields Hm Hwt. induction fs as [|[g w] r IH]; intros ds fields Hm Hwt; simpl in Hm.
+        - inversion Hm. split; reflexivity.
+        - inversion H as [|? ? Hw HF]; subst. destruct ds as [|[g' t'] ds]; simpl in Hwt; [discriminate Hwt|].
+          apply andb_true_iff in Hwt. destruct Hwt as [Hwt Hr]. apply andb_true_iff in Hwt. destruct Hwt as [Hwt _].
+          apply andb_true_iff in Hwt. destruct Hwt as [_ Hww].
+          destruct (enc_at J JK jenc kenc fixed reg 0 w) as [i|e|] eqn:Ei; simpl in Hm; try discriminate Hm.
+          match type of Hm with (do bs <- ?M; _) = _ => destruct M as [f'|e|] eqn:Er end; simpl in Hm; try discriminate Hm.
+          inversion Hm. destruct (IH HF ds f' eq_refl Hr) as [Hq1 Hq2]. simpl. rewrite Hq1, Hq2.
+          simpl in Hw. rewrite (Hw 0 i Hww Ei). split; reflexivity. }
+      destruct Hfst as [Hfst Hch]. unfold otok in Hch. rewrite Hch, !andb_true_r. rewrite Hfst.
+      destruct (fields_wt_names env ds fs Hwt) as [Hlen Hnames].
+      assert (Hn : map fst fs = map fst ds).
+      { clear - Hwt. revert fs Hwt. induction ds as [|[f t] ds IH]; intros [|[g w] fs] Hwt; simpl in Hwt; try discriminate Hwt; [reflexivity|].
+        apply andb_true_iff in Hwt. destruct Hwt as [Hwt H4]. apply andb_true_iff in Hwt. destruct Hwt as [Hwt _].
+        apply andb_true_iff in Hwt. destruct Hwt as [Hq _]. apply String.eqb_eq in Hq. subst. simpl. now rewrite (IH fs H4). }
+      rewrite Hn. apply NoDup_names_nodup. eapply field_names_unique; eauto.
+    - (* VNilPtr *)
+      unfold lookup_name in He. destruct (rm_lookup reg (snd (strip_ptr t))) as [k|] eqn:E; simpl in He; [|discriminate He].
+      inversion He. simpl. now rewrite (rm_nonempty _ _ E).
+    - (* VPtr *) simpl in Hwt. apply andb_true_iff in Hwt. destruct Hwt as [_ Hwt]. eapply IHv; eauto.
+    - (* VSlice nil *)
+      destruct (elem_key reg t) as [ek|e|] eqn:Ek; simpl in He; try discriminate He. inversion He. reflexivity.
+    - (* VSlice *)
+      destruct (elem_key reg t) as [ek|e|] eqn:Ek; simpl in He; try discriminate He.
+      destruct (mapM (enc_at J JK jenc kenc fixed reg 0) es) as [elems|e|] eqn:Hm; simpl in He; try discriminate He.
+      inversion He. simpl. rewrite wt_slice in Hwt. apply andb_true_iff in Hwt. destruct Hwt as [_ Hwt].
+      eapply mapM_otok; [|exact Hm]. rewrite Forall_forall in H |- *. intros e Hin o' Ho.
+      eapply H; eauto. eapply elems_wt_In; eauto.
+    - (* VMap nil *)
+      destruct (elem_key reg k) as [kk|e|] eqn:Ek; simpl in He; try discriminate He.
+      destruct (elem_key reg t) as [vk|e|] eqn:Ev; simpl in He; try discriminate He.
+      inversion He. simpl. now rewrite (elem_key_nonempty _ _ Ek).
+    - (* VMap *)
+      destruct (elem_key reg k) as [kk|e|] eqn:Ek; simpl in He; try discriminate He.
+      destruct (elem_key reg t) as [vk|e|] eqn:Ev; simpl in He; try discriminate He.
+      match type of He with (do entries <- ?M; _) = _ => destruct M as [entries|e|] eqn:Hm end; simpl in He; try discriminate He.
+      inversion He. simpl. rewrite (elem_key_nonempty _ _ Ek). simpl.
+      rewrite wt_map in Hwt. apply andb_true_iff in Hwt. destruct Hwt as [_ Hwt]. apply andb_true_iff in Hwt. destruct Hwt as [Hwt _].
+      clear - H Hwt Hm. revert entries Hm. induction kvs as [|[a b] r IH]; intros entries Hm; simpl in Hm.
+      + inversion Hm. reflexivity.
+      + inversion H as [|? ? [_ Hb] HF]; subst. simpl in Hwt.
+        apply andb_true_iff in Hwt. destruct Hwt as [Hwt Hr]. apply andb_true_iff in Hwt. destruct Hwt as [Hwt _].
+        apply andb_true_iff in Hwt. destruct Hwt as [_ Hwb].
+        destruct (enc_at J JK jenc kenc fixed reg 0 b) as [i|e|] eqn:Ei; simpl in Hm; try discriminate Hm.
+        destruct (enc_key JK kenc a); simpl in Hm; try discriminate Hm.
+        match type of Hm with (do bs <- ?M; _) = _ => destruct M as [e'|e|] eqn:Er end; simpl in Hm; try discriminate Hm.
+        inversion Hm. simpl. simpl in Hb. pose proof (Hb 0 i Hwb Ei) as Hoi. unfold otok in Hoi. rewrite Hoi. simpl. now apply IH.
+    - (* VIface nil *) destruct pn; [inversion He; reflexivity | discriminate He].
+    - (* VIface *) destruct pn; [|discriminate He]. simpl in Hwt. apply andb_true_iff in Hwt. destruct Hwt as [_ Hwt].
+      apply andb_true_iff in Hwt. destruct Hwt as [_ Hwt]. eapply IHv; eauto.
+    - (* VArray *)
+      destruct (elem_key reg t) as [ek|e|] eqn:Ek; simpl in He; try discriminate He.
+      destruct (mapM (enc_at J JK jenc kenc fixed reg 0) es) as [elems|e|] eqn:Hm; simpl in He; try discriminate He.
+      inversion He. simpl. rewrite wt_array in Hwt. apply andb_true_iff in Hwt. destruct Hwt as [_ Hwt].
+      eapply mapM_otok; [|exact Hm]. rewrite Forall_forall in H |- *. intros e Hin o' Ho.
+      eapply H; eauto. eapply elems_wt_In; eauto.
+    - (* VDef *)
+      simpl in Hwt. apply andb_true_iff in Hwt. destruct Hwt as [_ Hwt].
+      match type of He with (if ?c then _ else _) = _ => destruct c; [discriminate He|] end.
+      destruct (enc_at J JK jenc kenc fixed reg pn v) as [oi|e|] eqn:Ei; simpl in He; try discriminate He.
+      inversion He. pose proof (IHv pn oi Hwt Ei) as Hoi.
+      destruct oi as [i|]; simpl; [|reflexivity]. apply tok_set_ct; [|exact Hoi].
+      destruct (rm_lookup reg (TDef d (ty_of v))) eqn:E; simpl; [eapply rm_nonempty; eauto|reflexivity].
+  Qed.
+End EncTreeOk.
+
+(* ------------------------------------------------------------------ the property's first clause for the
+   two translated functions together: whatever functions the Go sources of internalMarshal and
+   internalUnmarshal define (any solutions of the two translated equations), decoding what the encoder
+   wrote for a supported value restores an equivalent value of the identical dynamic type *)
+Theorem translated_codec_roundtrips :
+  forall (J JK : Type) (jenc : base -> lit -> res J) (jdec : base -> J -> res lit)
+         (kenc : base -> lit -> res JK) (kdec : base -> JK -> res lit) (reg : registry) (env : senv)
+         (json_roundtrip : forall b l j,
+             lit_in_base b l = true -> jsafe l = true -> jenc b l = Ok j -> jdec b j = Ok l)
+         (key_roundtrip : forall b l j,
+             lit_in_base b l = true -> jsafe l = true -> kenc b l = Ok j -> kdec b j = Ok l)
+         (registry_names_unique : NoDup (map fst reg))
+         (registry_names_nonempty : names_nonempty reg = true)
+         (registered_not_pointers : forall k t, m_lookup reg k = Some t -> kind_eqb (rt_Kind t) KPtr = false)
+         (registered_have_zero : forall k t, m_lookup reg k = Some t -> exists z, zero_v env t = Ok z)
+         (field_names_unique : forall n ds, struct_fields env n = Some ds -> NoDup (map fst ds))
+         (fe : val -> res (option (gis J JK))) (fd : option (gis J JK) -> res (option val)),
+    (forall v, wt env v = true -> fe v = Gen.SerCode.internalMarshal J JK jenc kenc reg env fe v) ->
+    (forall og, fd og = Gen.SerCode.internalUnmarshal J JK jdec kdec reg env fd og) ->
+    forall v og,
+      wt env v = true -> is_iface (ty_of v) = false -> Proofs.Ser.safe v -> Proofs.Ser.defs_ok reg v ->
+      fe v = Ok og ->
+      exists v', fd og = Ok (Some v') /\ v' ≅ v /\ dyn_ty v' = dyn_ty v.
+Proof.
+  intros J JK jenc jdec kenc kdec reg env jrt krt Hnd Hne Hnp Hz Hfn fe fd Hfe Hfd v og Hwt Hi Hs Hd Hfv.
+  rewrite (gen_internalMarshal_unique J JK jenc kenc reg env Hne fe Hfe v Hwt) in Hfv.
+  unfold to_gis_res in Hfv.
+  destruct (enc_at J JK jenc kenc fixed reg 0 v) as [oi|e|] eqn:E; simpl in Hfv; try discriminate Hfv.
+  inversion Hfv; subst og; clear Hfv.
+  destruct (Proofs.Ser.enc_dec_roundtrip_lemma J JK jenc jdec kenc kdec reg env jrt krt Hnd Hfn v oi Hwt Hi Hs Hd E)
+    as [v' [Hun [Heq Hdy]]].
+  exists v'. split; [|auto].
+  pose proof (enc_tree_ok J JK jenc kenc reg env Hne Hnd Hfn v 0 oi Hwt E) as Hok.
+  destruct oi as [i|]; [|discriminate Hun]. simpl in Hun, Hok |- *.
+  exact (gen_internalUnmarshal_unique J JK jdec kdec reg env Hnp Hz Hfn fd Hfd i v' Hok Hun).
+Qed.
+
+(* non-vacuity: the registry of a process that uses compose satisfies the registry hypotheses *)
+From Eino Require Import Model.SerCheckpoint.
+Example registry_hypotheses_nonvacuous :
+  forallb (fun e => negb (kind_eqb (rt_Kind (snd e)) KPtr) && is_ok (zero_v (ckpt_senv []) (snd e))) (ckpt_reg []) = true
+  /\ names_nonempty (ckpt_reg []) = true
+  /\ tree_ok lit lit (ckpt_reg []) (match enc_c fixed (ckpt_reg []) sample_checkpoint with Ok (Some i) => i | _ => INull 0 0 EmptyString end) = true.
+Proof. repeat split; vm_compute; reflexivity. Qed.
+
+(* non-vacuity: the two translated functions run (recursion closed with fuel) and restore the sample
+   checkpoint exactly as the model does *)
+Fixpoint gen_unmarshal_fuel (n : nat) (reg : registry) (env : senv) (og : option (gis lit lit)) : res (option val) :=
+  match n with
+  | O => Err 90%N
+  | S n' => Gen.SerCode.internalUnmarshal lit lit jdec_c kdec_c reg env (gen_unmarshal_fuel n' reg env) og
+  end.
+Example gen_codec_runs :
+  (do og <- gen_marshal_fuel 12 (ckpt_reg []) (ckpt_senv []) sample_checkpoint;
+   gen_unmarshal_fuel 12 (ckpt_reg []) (ckpt_senv []) og)
+  = res_map Some (do oi <- enc_c fixed (ckpt_reg []) sample_checkpoint; dec_c fixed (ckpt_reg []) (ckpt_senv []) oi)
+  /\ is_ok (do og <- gen_marshal_fuel 12 (ckpt_reg []) (ckpt_senv []) sample_checkpoint;
+            gen_unmarshal_fuel 12 (ckpt_reg []) (ckpt_senv []) og) = true.
+Proof. split; vm_compute; reflexivity. Qed.
